@@ -247,6 +247,7 @@ func (e Engine) Run(t *core.Tape, opt core.RunOpt, agg *core.Agg) *core.Violatio
 }
 
 func (e Engine) finish(c *Case, f *failure, h uint64, agg *core.Agg) *core.Violation {
+	agg.SetRunHash(h)
 	if agg != nil {
 		agg.Inc("executions")
 		agg.Inc("scope." + c.Scope)
